@@ -566,11 +566,15 @@ class Visitor:
         except (LastNodeError, AttributeError):
             docstring = None
 
+        assigned_annotation, assigned_docstring, assigned_labels = annotation, docstring, labels
         for name in names:
             # TODO: Handle assigns like `x.y = z`.
             # We need to resolve `x.y` and add `z` in its members.
             if "." in name:
                 continue
+
+            # What is forwarded from a previous member of the same name must not leak to the other names of `a = b = ...`.
+            annotation, docstring, labels = assigned_annotation, assigned_docstring, set(assigned_labels)
 
             if name in parent.members:
                 # Assigning multiple times.
